@@ -556,8 +556,74 @@ fn build_chains(env: &Env) -> (Chain, Chain) {
     (main, fork)
 }
 
+fn parse_ev(s: &str) -> Option<Ev> {
+    let (name, a) = bfs::parse_call(s);
+    Some(match name.as_str() {
+        "FetchTx" => Ev::FetchTx(*a.first()? as usize),
+        "FetchHeader" => Ev::FetchHeader(*a.first()? as usize),
+        "FetchTick" => Ev::FetchTick,
+        "Refresh" => Ev::Refresh(*a.first()? as usize),
+        "Deliver" => Ev::Deliver(*a.first()? as usize),
+        "Disconnect" => Ev::Disconnect(*a.first()? as usize),
+        "Connect" => Ev::Connect(*a.first()? as usize),
+        "SilentSwitch" => Ev::SilentSwitch(*a.first()? as usize),
+        "ForkAll" => Ev::ForkAll,
+        "DeliverCorrupt" => Ev::DeliverCorrupt(*a.first()? as usize),
+        _ => return None,
+    })
+}
+
+fn signature(hist: &[Ev], class: &str) -> String {
+    let kinds: BTreeSet<String> = hist
+        .iter()
+        .filter_map(|e| match e {
+            Ev::SilentSwitch(_) => Some("silent-switch".to_owned()),
+            Ev::ForkAll => Some("fork".to_owned()),
+            Ev::Disconnect(_) => Some("disconnect".to_owned()),
+            Ev::Refresh(1) => Some("timeout".to_owned()),
+            Ev::DeliverCorrupt(_) => Some("bogus-proof".to_owned()),
+            _ => None,
+        })
+        .collect();
+    format!("{}/{}", class, kinds.into_iter().collect::<Vec<_>>().join("+"))
+}
+
+fn make_model<'a>(env: &'a Env, start_in_flight: bool, all_calls: bool) -> FetchModel<'a> {
+    let (main, fork) = build_chains(env);
+    let x = main.blocks[7].transactions()[1].hash();
+    let y = main.blocks[12].transactions()[1].hash();
+    let z = crate::verif::txlib::build_tx(&[], &[packed::OutPoint::new(x.clone(), 7)], &[crate::verif::txlib::OutSpec::lock(&env.scripts.c, 1)], 0xbad).hash();
+    let yf = fork.blocks[12].transactions()[0].hash();
+    let hz = packed::Byte32::new_unchecked(vec![0x5au8; 32].into());
+    FetchModel {
+        env,
+        txs: vec![x, y, z, yf],
+        hds: vec![main.blocks[6].hash(), main.blocks[12].hash(), fork.blocks[12].hash(), hz],
+        main,
+        fork,
+        cfg: ClientCfg { last_n: 3, max_outbound: 2, cp_interval: 4, ..Default::default() },
+        start_in_flight,
+        ask_txs: if all_calls { vec![0, 1, 2, 3] } else { vec![1, 2] },
+        ask_hds: if all_calls { vec![0, 1, 2, 3] } else { vec![0, 3] },
+        track: RefCell::new(Track::default()),
+    }
+}
+
 pub(crate) fn run(opts: &Opts, report: &mut Report) {
     let thorough = opts.thorough();
+    // a recorded event list is replayed directly
+    if let Some((config, events)) = opts.replay.as_deref().and_then(bfs::read_replay) {
+        let env = Env::dummy();
+        let m = make_model(&env, config == "in-flight", true);
+        let evs: Vec<Ev> = events.iter().filter_map(|e| parse_ev(e)).collect();
+        let mut rep = |hist: &[Ev], class: String, detail: String| {
+            if !class.starts_with("~not-judged") {
+                report.violation(signature(hist, &class), format!("[{}] after {:?}: {}", config, hist, detail), json!({"config": config, "events": hist.iter().map(|e| format!("{:?}", e)).collect::<Vec<_>>(), "transactions": TX_NAMES, "headers": HD_NAMES}));
+            }
+        };
+        bfs::replay_one(&m, &evs, &mut rep);
+        return;
+    }
     // (start with fetches in flight, max depth)
     let configs: Vec<(bool, usize)> = if thorough { vec![(false, 4), (true, 4)] } else { vec![(false, 3), (true, 3)] };
     const SHARDS: usize = 16;
